@@ -1,6 +1,7 @@
 (* C04 -- failures surface, the call terminates, the object stays reusable (model M1). *)
 From Coq Require Import List Arith.
-Require Import JV.Model.ParallelCore JV.Proofs.ParallelInv1 JV.Proofs.ParallelInv4 JV.Proofs.ParallelMisc.
+Require Import JV.Model.ParallelCore JV.Proofs.ParallelInv1 JV.Proofs.ParallelTrk JV.Proofs.ParallelInv4 JV.Proofs.ParallelInv5
+               JV.Proofs.ParallelInv6 JV.Proofs.ParallelMisc.
 Import ListNotations.
 
 (* a completion callback of an earlier call changes nothing but the in-flight bookkeeping *)
@@ -34,3 +35,29 @@ Theorem C04_sequential_failure : forall tfail pre i post,
   (forall j, In j pre -> tfail j = false) -> tfail i = true ->
   seq_run tfail (pre ++ i :: post) = (pre, Some (ErrTask i)).
 Proof. exact seq_run_fail. Qed.
+
+(* a registered failure (task error, input error, timeout) is what the caller gets: once the buffered
+   values of an already retrieved batch are consumed, the next request raises the error of a failed batch
+   that is still in the job queue -- under every schedule *)
+Theorem C04_failure_is_raised : forall s, reach s -> exception s = true -> phase s = Retrieving ->
+  pend_out s = [] -> want s = true ->
+  exists e t, snd (try_advance s) = Some (Raised e) /\ In t (jobs s) /\ status_of s t = Failed e.
+Proof. exact failure_is_raised. Qed.
+
+(* ... and after a failure was registered the call never ends normally *)
+Theorem C04_no_normal_end_after_failure : forall s, reach s -> exception s = true -> in_try (phase s) ->
+  snd (try_advance s) <> Some Stop.
+Proof. exact no_normal_end_after_failure. Qed.
+
+(* termination, part 1 (no hang): whenever the consumer is left waiting, the call is not aborting and
+   at least one batch of THIS call is still in flight or inside its completion callback -- so under a fair
+   environment (every in-flight batch eventually completes) the consumer is eventually served *)
+Theorem C04_waiting_means_work_in_flight : forall s, reach s -> want s = true -> phase s = Retrieving ->
+  snd (try_advance s) = None ->
+  aborting s = false /\ exists t, is_cur s t = true /\ (In t (inflight s) \/ In t (cbmid s)).
+Proof. exact waiting_means_work_in_flight. Qed.
+
+(* termination, part 2 (bounded work): completions of a call are bounded by its input *)
+Theorem C04_completions_bounded : forall s, reach s -> ifail s = None ->
+  n_comp s <= n_disp s /\ n_disp s <= taken s /\ taken s <= N s.
+Proof. exact completions_bounded. Qed.
